@@ -27,9 +27,9 @@ Fixpoint no_brace_escape (s : bytes) : bool :=
     else no_brace_escape r
   end.
 
-(* since c15_fix_raw-control-char a raw control character is no obstacle any more; [has_raw_ctl] is
-   kept for History.v *)
-Definition quoted_safe (raw : bytes) : bool := no_brace_escape raw.
+(* since c15_fix_raw-control-char a raw control character and since c15_fix_braced-unicode-escape a braced
+   escape is no obstacle any more: a quoted string needs no hypothesis ([has_raw_ctl], [no_brace_escape] are
+   kept for History.v) *)
 
 (* ---- block strings ---- *)
 Fixpoint has_escaped_triple (s : bytes) : bool :=
@@ -58,14 +58,16 @@ Fixpoint utf8_ok (skip : nat) (s : bytes) : bool :=
   end.
 
 (* since c15_fix_block-blank-only and c15_fix_block-escaped-triple-quote neither an escaped triple
-   quote nor an all-blank text is an obstacle ([has_escaped_triple], [blank_only] kept for History.v) *)
+   quote nor an all-blank text is an obstacle ([has_escaped_triple], [blank_only] kept for History.v);
+   since c15_fix_block-quote-next-to-whitespace the re-scan is exact for every text the lexer delimits
+   (ProofsBlock.rescan_exact_proof), so [rescan_exact] is no hypothesis any more *)
 Definition block_safe (raw : bytes) : bool :=
-  go_block_lexable raw && rescan_exact raw && utf8_ok O (block_string_value raw).
+  go_block_lexable raw && utf8_ok O (block_string_value raw).
 
 (* ---- whole literals ---- *)
 Fixpoint go_safe_b (v : value) : bool :=
   match v with
-  | VStr raw false => quoted_safe raw
+  | VStr raw false => true
   | VStr raw true => block_safe raw
   | VList items => (fix go (l : list value) : bool := match l with [] => true | x :: r => go_safe_b x && go r end) items
   | VObj fields =>
